@@ -81,6 +81,9 @@ Definition s_c16 (pred : option bool) (hok : bool) : N :=
 (* ---------------------------------------------------------------------------------------- *)
 (* S_C17: admin set / frozen flag; grants only by admins *)
 Definition nlist_eqb : list N -> list N -> bool := list_eqb N.eqb.
+(* the admin list as a set: who is an admin (order and repetitions in storage are not the property's concern) *)
+Definition nmem (x : N) (l : list N) : bool := existsb (fun y => y =? x) l.
+Definition nset_eqb (a b : list N) : bool := forallb (fun x => nmem x b) a && forallb (fun x => nmem x a) b.
 
 Definition all_keys (p q : state) : list N :=
   keys (allowances p) ++ keys (allowances q) ++ keys (permissions p) ++ keys (permissions q).
@@ -92,7 +95,7 @@ Definition s_c17 (p q : state) (blk : block) (sender : N) (o : op) (ok : bool) :
            match o with
            | Freeze => nlist_eqb (admins p) (admins q) && negb (mutable_ q)
            | UpdateAdmins l => match map_validate l with
-                               | Ok xs => nlist_eqb xs (admins q) && mutable_ q
+                               | Ok xs => nset_eqb xs (admins q) && mutable_ q
                                | _ => false
                                end
            | _ => false
@@ -113,7 +116,7 @@ Definition s_c17 (p q : state) (blk : block) (sender : N) (o : op) (ok : bool) :
           (all_keys p q)) then 2
   else if ok && match o with
                 | UpdateAdmins l => match map_validate l with
-                                    | Ok xs => negb (nlist_eqb xs (admins q))
+                                    | Ok xs => negb (nset_eqb xs (admins q))
                                     | _ => true
                                     end
                 | Freeze => mutable_ q
@@ -236,7 +239,8 @@ Fixpoint check_steps (prop : N) (i : N) (st : state) (prev : obs) (l : list tste
       if negb (Bool.eqb hok hok_m) then
         (* accept/reject divergence with the contract holding: continue from the observed state *)
         check_steps prop (i + 1) (state_of_obs (subkeys st) after) after r
-      else if negb (corr prop st' after blk) then [(i, 50)]
+      else if negb (corr prop st' after blk)
+      then (i, 50) :: check_steps prop (i + 1) (state_of_obs (subkeys st) after) after r   (* go on from the observed state *)
       else if (prop =? 7) && hok && negb (list_eqb cmsg_eqb relayed (match step st blk sender o with Ok (_, ms) => ms | _ => [] end))
            then [(i, 51)]
       else check_steps prop (i + 1) st' after r
@@ -256,7 +260,7 @@ Fixpoint check_traces (prop : N) (i : N) (ts : list trace) : list (N * N) :=
   match ts with
   | [] => []
   | t :: r =>
-      match check_trace prop t with
+      match prefer_clause (check_trace prop t) with
       | [] => check_traces prop (i + 1) r
       | (s, c) :: _ => (i, s * 1000 + c) :: check_traces prop (i + 1) r
       end
